@@ -40,7 +40,8 @@ from ..core import Ctx
 
 LEVEL = "model_checking"
 TOL = 1e-9
-INVARIANTS = ["NonNegative", "SumToOne", "AtLeastOneModel", "BayesRule", "ResetOnlyOnTrueUnderflow", "ModeMixValid",
+INVARIANTS = ["NonNegative", "SumToOne", "AtLeastOneModel", "BayesRule", "ResetOnlyOnTrueUnderflow", "ZeroStaysZero",
+              "ModeMixValid",
               "MixtureMoments",
               "SpreadForm", "HandBackIsSurvivor", "NotClosedEarly", "TieFree", "PruneNeverEmpties"]
 
@@ -160,11 +161,17 @@ R_LAT = 0.02          # measurement noise variance of the prepared channel
 JD0 = 2459304.25
 
 
-def _lat_obs(y, t):
+R_TINY = 2.0 ** -40   # noise of the prepared channel in updates that carry an infinite NIS
+BIG = 2.0 ** 495      # innovation with BIG^2 finite (spread terms stay finite) and BIG^2 / R_TINY = inf
+
+
+def _lat_obs(y, t, var=R_LAT):
     r = rt()
-    meas = _RT.setdefault("lat_meas", r["Measurement"]([r["Channel"](1)], np.array([[R_LAT]])))
+    key = ("lat_meas", var)
+    if key not in _RT:
+        _RT[key] = r["Measurement"]([r["Channel"](1)], np.array([[var]]))
     return r["Observation"](julian_date=JD0 + t / 86400.0, target_id=10001, sensor_id=200001, sensor_type="AdvRadar",
-                            sensor_eci=np.zeros(6), measurement=meas, range_km=float(y))
+                            sensor_eci=np.zeros(6), measurement=_RT[key], range_km=float(y))
 
 
 COLS = ("range_km", "range_rate_km_p_sec", "azimuth_rad", "elevation_rad")
@@ -177,7 +184,7 @@ REGIMES = {
 }
 
 
-# one signature per mechanism for the updates of a non-plain regime (the clause that noticed it goes in the text)
+# regimes with a likelihood scale in which a naive evaluation misbehaved (D41, fixed by 6aa2f88): named in the text
 REGIME_SIGNATURE = {
     "-likelihoods-small-not-underflowed": "reset-without-underflow",
     "-determinant-overflow": "reset-without-underflow-determinant-overflow",
@@ -200,14 +207,19 @@ def _pad_obs(t, var):
 def _lat_model(lay, mid):
     r = rt()
     return r["UKF"](10001, 0.0, np.array([float(mu_of(lay, mid)), 0.0]), np.diag([float(var_of(lay, mid)), 1.0]),
-                    r["Identity"](), np.zeros((2, 2)), None, False, False, alpha=1.0)
+                    r["Identity"](), np.zeros((2, 2)), None, False, False, alpha=1.0, kappa=2.0)
+    # alpha = 1, kappa = 2 with two states: sigma-point weights 1/2 and 1/8 (exact in binary), so a model whose
+    # prepared channel sits at -2^495 keeps exactly zero spread, zero gain and an untouched lattice channel
 
 
 def _raised_in_mmae(ex):
-    """True iff the exception left a frame of estimation/adaptive/ last (not filter/dynamics internals)."""
+    """True iff the exception belongs to the adaptive-estimation code: the innermost frame that is resonaate's
+    own lies in estimation/adaptive/ (numpy frames below it do not count); a failure inside a model filter, the
+    dynamics or the harness' stand-ins is not."""
     import traceback
-    tb = traceback.extract_tb(ex.__traceback__)
-    return bool(tb) and "estimation/adaptive/" in tb[-1].filename.replace("\\", "/")
+    own = [fr.filename.replace("\\", "/") for fr in traceback.extract_tb(ex.__traceback__)
+           if "/resonaate/" in fr.filename.replace("\\", "/")]
+    return bool(own) and "/estimation/adaptive/" in own[-1]
 
 
 def make_mmae(kind, nominal, models, th, pct, mix=None):
@@ -280,9 +292,9 @@ def replay_behaviour(beh, seed):
 
     def bad(clause, what, k, extra=None):
         tag = f"{kind}-{clause}"
-        for rt_, name in REGIME_SIGNATURE.items():
+        for rt_ in REGIME_SIGNATURE:       # the regime of the update is part of the text, not of the signature
             if clause.endswith(rt_):
-                tag, what = f"{kind}-{name}", f"[{clause[:-len(rt_)]}] {what}"
+                tag, what = f"{kind}-{clause[:-len(rt_)]}", f"[regime {rt_[1:]}] {what}"
         viol.append((tag, f"real {type(f).__name__}: {what} (update {k + 1})",
                      {"behaviour": beh, "step": k, "seed": seed, "detail": extra}))
 
@@ -311,16 +323,36 @@ def replay_behaviour(beh, seed):
             # "gate fails": combined NIS far above any chi-square bound of the stacked dimension 1 + 4 npad
             base = 0.0 if gate_true else (rng.choice((70.0, 150.0, 600.0, 1300.0)) if regime == "small"
                                           else 30.0 + 8.0 * npad)
-            # 0 in the spec = TRUE underflow: exp(log-likelihood) is 0.0 in IEEE double however it is evaluated
-            nis_zero = 2000.0 + max(0.0, -pad_logdet)
-            all_zero = not any(L)
+            # 0 in the spec = TRUE underflow: exp(log-likelihood) is 0.0 in IEEE double however it is evaluated;
+            # realised as NIS ~ 2000 (underflows in exp only) or as an INFINITE NIS (the log-likelihood is -inf too)
+            # (and 2000 above the live models, so that its posterior is 0.0 exactly in a log-domain evaluation too)
+            nis_zero = 2000.0 + base + max(0.0, -pad_logdet)
             pri = np.asarray(f.model_weights if kind == "smm" else f.mode_probabilities, dtype=float)
+            all_zero = all(pri[j] == 0.0 or L[j] == 0 for j in range(len(L)))      # no model keeps any mass
+            zero_prior = bool(np.any(pri == 0.0))
+            if all_zero:
+                gate_true = False         # every NIS is beyond any chi-square bound
+                base = 30.0 + 8.0 * npad
+                nis_zero = 2000.0 + base + max(0.0, -pad_logdet)
+            # total loss of mass: an evaluation with logarithms still ranks the models unless every log mass is
+            # -inf, so either (a) every model that had mass gets an infinite NIS (fallback in any evaluation), or
+            # (b) prior * likelihood is made equal for all models (fallback and Bayes' rule coincide); with a
+            # zero prior among the models only (a) makes the two coincide
+            total_inf = all_zero and (zero_prior or rng.random() < 0.5)
+            use_inf = [False] * len(L)
+            for j, lv in enumerate(L):
+                if total_inf:
+                    use_inf[j] = pri[j] > 0.0
+                elif lv == 0 and not all_zero and not gate_true:
+                    use_inf[j] = rng.random() < 0.5     # mixed regime: one model dead, the others alive
+            r_var = R_TINY if any(use_inf) else R_LAT
             logw = []
             for j, (m, lv) in enumerate(zip(before, L)):
-                if all_zero:
-                    # total underflow: the documented fallback (SMM uniform, GPB1 prior) and Bayes' rule on the
-                    # log-likelihoods coincide when prior * likelihood is the same for every model
-                    nis = nis_zero + (2.0 * math.log(pri[j] / pri.min()) if kind == "smm" else 0.0)
+                if use_inf[j]:
+                    nis, s_m = math.inf, 1.0
+                elif all_zero and pri[j] > 0.0:
+                    # (b): the documented fallback (SMM uniform, GPB1 prior) equals Bayes' rule on the log-likelihoods
+                    nis = nis_zero + (2.0 * math.log(pri[j] / pri[pri > 0].min()) if kind == "smm" else 0.0)
                     s_m = 1.0
                 elif lv == 0:
                     nis, s_m = nis_zero + rng.uniform(0.0, 200.0), math.exp(-rng.uniform(0.0, 1.0))
@@ -330,13 +362,13 @@ def replay_behaviour(beh, seed):
                 dim = 1 + 4 * npad
                 logw.append(math.log(pri[j]) - 0.5 * nis - 0.5 * (dim * math.log(2 * math.pi) + math.log(s_m) + pad_logdet)
                             if pri[j] > 0 else -math.inf)
-                nu = math.sqrt(nis * s_m) * rng.choice((-1.0, 1.0))
+                nu = BIG if use_inf[j] else math.sqrt(nis * s_m) * rng.choice((-1.0, 1.0))
                 m.est_x = np.array([m.est_x[0], y - nu])
                 p = np.array(m.est_p, dtype=float, copy=True)
                 p[0, 1] = p[1, 0] = 0.0
-                p[1, 1] = s_m - R_LAT
+                p[1, 1] = s_m - r_var
                 m.est_p = p
-            obs = [_lat_obs(y, t)] + [_pad_obs(t, pvar) for _ in range(npad)]
+            obs = [_lat_obs(y, t, r_var)] + [_pad_obs(t, pvar) for _ in range(npad)]
             # total mass as a naive evaluation sees it (the code normalises the Gaussian with the measurement
             # dimension of the PREVIOUS update): representable but below 1e-14 is the same regime as "small"
             top = max(logw)
@@ -347,13 +379,21 @@ def replay_behaviour(beh, seed):
             stale_dim = dim
         else:
             obs, rtag, regime = [], "", "plain"
+            for m in before:        # a model left at -2^495 by an infinite-NIS update: put its prepared channel back
+                if abs(m.est_x[1]) > 1e100 or m.est_p[1, 1] <= 0.0:
+                    m.est_x = np.array([m.est_x[0], 0.0])
+                    p = np.array(m.est_p, dtype=float, copy=True)
+                    p[0, 1] = p[1, 0] = 0.0
+                    p[1, 1] = 1.0
+                    m.est_p = p
         try:
             f.predict(t)
             f.update(obs)
         except Exception as ex:  # noqa: BLE001 - a crash inside the adaptive-estimation code is a finding
             if not _raised_in_mmae(ex):
                 raise tlc.MachineryError(f"replay input made a model filter fail: {type(ex).__name__}: {ex}") from ex
-            bad(f"update-raises-{type(ex).__name__}", f"update() raised {type(ex).__name__}: {ex}", k)
+            bad(f"update-raises:{type(ex).__name__}", f"update() raised {type(ex).__name__}: {ex}", k,
+                {"models_before": ids_before})
             break
         steps += 1
         ids_after = [ident.get(id(m), 0) for m in f.models]
@@ -411,6 +451,10 @@ def replay_behaviour(beh, seed):
                 f"value {st['cov']}", k)
             break
         mean_ok, mom_ok, sym_ok, psd_ok = _moment_flags(f, f.models, exp_w)
+        if st["obs"] and total_inf:
+            # every model sits at -2^495 in the prepared channel with non-zero weight: that channel's moments are
+            # round-off of 2^495; the lattice channel was compared exactly above
+            mean_ok = mom_ok = sym_ok = psd_ok = True
         if not (mean_ok and mom_ok and sym_ok and psd_ok):
             bad("combined-matrix-identity", f"combined 2x2 estimate fails mean/moment/symmetry/PSD identities "
                 f"{(mean_ok, mom_ok, sym_ok, psd_ok)}", k)
@@ -660,7 +704,7 @@ def gen_trace(tid, seed, max_steps):
             f.update(obs)
         except Exception as ex:  # noqa: BLE001
             if _raised_in_mmae(ex):
-                viol.append((f"{kind}-update-raises-{type(ex).__name__}",
+                viol.append((f"{kind}-update-raises:{type(ex).__name__}",
                              f"real {type(f).__name__}.update() raised {type(ex).__name__}: {ex} (trace {tid} step {k})",
                              {"trace_seed": seed, "tid": tid, "step": k}))
             else:       # the random input broke a model filter / the dynamics: not an MMAE behaviour
@@ -845,13 +889,13 @@ def validate_traces(ctx: Ctx, ntraces, max_steps):
 
 
 def _trace_sig(kind, clause, regime):
-    if regime in REGIME_SIGNATURE:
-        return f"{kind}-{REGIME_SIGNATURE[regime]}", f"[trace-{clause}] "
-    return f"{kind}-trace-{clause}", ""
+    return f"{kind}-trace-{clause}", (f"[regime {regime[1:]}] " if regime else "")
 
 
 def _validate_records(ctx: Ctx, recs, aux, selftest):
     if not recs:
+        if ctx.violations:       # every trace died in its first update() inside the adaptive code: already reported
+            return []
         raise tlc.MachineryError("no trace records produced")
     nreal = len(recs)
     bad_copies = _corrupt(recs) if selftest else []
@@ -971,6 +1015,9 @@ def _plans(quick):
                                             noobs_at=[1]), {}),
             ("exhaustive_smm_3to5_models", dict(kinds=["smm"], nmodels=[3, 4, 5], lvals=[0, 1, 3], th="ThQuick", pct="PctLow",
                                                 mix="MixOne", layouts=[2], max_updates=2, big_n=5, noobs_at=[1]), {}),
+            # pruning switched off: a model whose probability is exactly 0 stays, later updates start from zero priors
+            ("exhaustive_smm_no_pruning", dict(kinds=["smm"], nmodels=[2, 3], lvals=[0, 1, 3], th="ThZero", pct="PctOne",
+                                               mix="MixOne", layouts=[3], max_updates=2, big_n=99, noobs_at=[1]), {}),
             ("simulate_to_30_models", dict(max_updates=3, noobs_at=[1], **sim), dict(simulate="num=120", depth=400)),
         ]
     return [
@@ -984,6 +1031,8 @@ def _plans(quick):
         ("exhaustive_gpb1_2to4_models", dict(kinds=["gpb1"], nmodels=[2, 3, 4], lvals=[0, 1, 3], th="ThQuick", pct="PctOne",
                                              mix="MixAll", layouts=[1], max_updates=3, big_n=99, gpb_big_n=3,
                                              noobs_at=[1, 2]), {}),
+        ("exhaustive_smm_no_pruning", dict(kinds=["smm"], nmodels=[2, 3, 4], lvals=[0, 1, 3], th="ThZero", pct="PctQuick",
+                                           mix="MixOne", layouts=[3], max_updates=3, big_n=3, noobs_at=[1]), {}),
         ("simulate_smm_to_30_models", dict(max_updates=5, noobs_at=[1, 2, 3], **dict(sim, kinds=["smm"])),
          dict(simulate="num=1000", depth=600)),
         ("simulate_gpb1_to_30_models", dict(max_updates=3, noobs_at=[1], **dict(sim, kinds=["gpb1"])),
@@ -1065,7 +1114,7 @@ def run(ctx: Ctx):
     pool = mp.get_context("fork").Pool(nproc)       # forked before any thread exists
     _RT["pool"] = pool
     try:
-        with ThreadPoolExecutor(len(plans) + 1) as ex:
+        with ThreadPoolExecutor(len(plans) + 2) as ex:
             futs = []
             for label, kw, rkw in plans:
                 cfg = cfg_text(keep_hist=True, **kw)
@@ -1073,7 +1122,19 @@ def run(ctx: Ctx):
                 workers = 1 if "simulate" in rkw else max(2, ctx.cpus // 4)
                 futs.append((label, ex.submit(tlc.run_tlc, "MMAE", cfg, ctx.sub(label), workers=workers,
                                               timeout=3000, seed=ctx.seed + 1, heap="3g", **rkw)))
+            dev_cfg = cfg_text(kinds=["smm", "gpb1"], nmodels=[2], lvals=[0, 1], th="ThZero", pct="PctOne", mix="MixOne",
+                               layouts=[1], max_updates=1, big_n=99, noobs_at=[1], keep_hist=False)
+            dev_cfg = "\n".join(l for l in dev_cfg.splitlines() if not l.startswith("INVARIANT")) \
+                + "\nINVARIANT DeviationResetOnAnyZero\n"
+            dev = ex.submit(tlc.run_tlc, "MMAE", dev_cfg, ctx.sub("deviation"), workers=1, timeout=600, heap="1g")
             validate_traces(ctx, ntraces, max_steps)
+            dres = dev.result()
+            tlc.require_ok(dres, "deviation run")
+            if [i for i, _ in dres.invariant_violations] != ["DeviationResetOnAnyZero"]:
+                raise tlc.MachineryError("spec self-test: TLC did not refute the deviation 'fallback on any zero mass':\n"
+                                         + dres.stdout[-800:])
+            ctx.add_tlc(dres, "MMAE.tla deviation DeviationResetOnAnyZero (must be refuted)")
+            ctx.extra["spec_deviations_refuted"] = ["DeviationResetOnAnyZero"]
             taken = {}
             for label, fut in futs:
                 res = fut.result()
